@@ -30,7 +30,8 @@ pub struct Download {
     pub reduce: Option<(usize, u8)>,
     /// stop after this many received blocks without finishing
     pub abandon_after: Option<usize>,
-    /// plain requests on pairwise distinct other keys sent between two blocks
+    /// plain requests on pairwise distinct other keys sent between two blocks,
+    /// followed by block-wise downloads on up to seven look-alike keys
     #[serde(default)]
     pub foreign_between: u16,
 }
@@ -255,6 +256,59 @@ pub fn run_download(
                         if let Some(msg) = out.panicked() {
                             fail!("c08-panic", "handler panicked on an unrelated request: {msg}");
                         }
+                    }
+                    // ... among them block-wise downloads on keys that look
+                    // like this transfer's: another endpoint or method, the
+                    // path with an empty segment added in front or behind,
+                    // the segments joined into one, a prefix and an extension
+                    let other_body = AppSpec { code: 0x45, options: vec![(4, vec![0xEE])], body: body(50, d.body_seed.wrapping_add(91)) };
+                    let mut joined = d.path.join(&b'/');
+                    if d.path.len() < 2 {
+                        joined.extend_from_slice(b"/");
+                    }
+                    let mut behind = d.path.clone();
+                    behind.push(vec![]);
+                    let mut front = vec![vec![]];
+                    front.extend(d.path.iter().cloned());
+                    let mut longer = d.path.clone();
+                    longer.push(b"r".to_vec());
+                    let shorter: Vec<Vec<u8>> = d.path.iter().take(d.path.len().saturating_sub(1)).cloned().collect();
+                    let lookalikes: Vec<(u8, u8, Vec<Vec<u8>>)> = vec![
+                        (d.endpoint.wrapping_add(10), d.method, d.path.clone()),
+                        (d.endpoint, if d.method == 3 { 4 } else { 3 }, d.path.clone()),
+                        (d.endpoint, d.method, behind),
+                        (d.endpoint, d.method, front),
+                        (d.endpoint, d.method, vec![joined]),
+                        (d.endpoint, d.method, longer),
+                        (d.endpoint, d.method, shorter),
+                    ];
+                    for (j, (ep, method, path)) in lookalikes.into_iter().enumerate() {
+                        if j as u16 >= d.foreign_between || (ep, method, &path) == (d.endpoint, d.method, &d.path) {
+                            continue;
+                        }
+                        // fetched to its end, so that no unfinished transfer is
+                        // left on a key a later transfer of the plan may use
+                        for num in 0..8u32 {
+                            *mid = mid.wrapping_add(1);
+                            let mut other = d.request(*mid, Some(block_bytes(num, false, 0)));
+                            other.method = method;
+                            other.path = path.clone();
+                            let out = exchange(handler, &other.msg().encode().unwrap(), ep, &mut |_r| Some(other_body.clone()));
+                            if let Some(msg) = out.panicked() {
+                                fail!("c08-panic", "handler panicked on a request for a look-alike key: {msg}");
+                            }
+                            let more = out
+                                .response
+                                .as_ref()
+                                .and_then(|r| find_opt(r, OPT_BLOCK2))
+                                .and_then(|x| parse_block(x))
+                                .map(|b| b.more)
+                                .unwrap_or(false);
+                            if !more {
+                                break;
+                            }
+                        }
+                        acc.class("look-alike-key-download-between-blocks");
                     }
                 }
             }
